@@ -304,6 +304,8 @@ def programs(tier, seed):
     if tier == "quick":
         # quick tier: programs with two partition steps (or partition + another allocation-heavy step) are thorough-only
         ps = [p for p in ps if p.weight <= 14 or p.group == "single"]
+    else:
+        ps = [p for p in ps if p.weight <= 60 or p.group == "single"]
     return ps
 
 
